@@ -32,12 +32,13 @@ Proof. intros P p H. exact (kin_full_derivative P p H). Qed.
 Theorem c03_bfgs_consistent : forall ops, consistent (brun ops).
 Proof. exact bfgs_consistent. Qed.
 
-(* ... and a rejection restores exactly the state (metric and factor) of the last acceptance *)
+(* ... and a rejection restores exactly the state (metric, factor and the reference pair the next update starts from) of the
+   last acceptance *)
 Theorem c03_bfgs_reject_restores : forall ops1 traj,
   List.Forall (fun o => match o with Update _ _ => True | _ => False end) traj ->
   let s_acc := brun (ops1 ++ [Accept]) in
   let s_rej := brun (ops1 ++ [Accept] ++ traj ++ [Reject]) in
-  minv s_rej = minv s_acc /\ lt_of s_rej = lt_of s_acc.
+  minv s_rej = minv s_acc /\ lt_of s_rej = lt_of s_acc /\ refp s_rej = refp s_acc.
 Proof. exact bfgs_reject_restores. Qed.
 
 (* step f*eps with mass M and step eps with mass M/f^2: same positions, momenta divided by f, for every
